@@ -581,7 +581,7 @@ def ctor_check(pid, tier, seed, t0):
 
 def cfail_coq_term(d):
     def views(vs):
-        return "[" + "; ".join("VComp %s %d" % (k, c) for k, c in vs) + "]"
+        return "[" + "; ".join("VIdent" if v == "id" else "VComp %s %d" % (v[0], v[1]) for v in vs) + "]"
     b = lambda x: "true" if x else "false"  # noqa: E731
     if d[0] == "query":
         return "CQuery 2 %s %s" % (views(d[1]), views(d[2]))
@@ -799,6 +799,11 @@ def c15_sched_part(pid, tier, seed):
 
 
 def c15_order_part(pid, seed):
+    with common.Lock("small-programs"):
+        return _c15_order_part(pid, seed)
+
+
+def _c15_order_part(pid, seed):
     """Every order in which resource views can be requested (C15): each program of tools/gen_resorder.py must
     type-check (rustc's verdict per program is also compared with [res_views_accepted] of Model/ResOrder.v on the
     regenerated fact) and, run, must return the resource of the requested type at each position."""
@@ -934,6 +939,11 @@ HYGIENE_PROGRAMS = [
 
 
 def c05_hygiene_part(pid, seed):
+    with common.Lock("small-programs"):
+        return _c05_hygiene_part(pid, seed)
+
+
+def _c05_hygiene_part(pid, seed):
     """The macros that contain `unsafe` must not lend it to the caller's expressions (C05: no SAFE code misuses
     memory): a call of an `unsafe fn` written as a macro argument, without an `unsafe` block of the caller's own,
     must be rejected by rustc (E0133)."""
@@ -1008,6 +1018,11 @@ def c05_hygiene_part(pid, seed):
 
 
 def c13_probe_part(pid, seed):
+    with common.Lock("small-programs"):
+        return _c13_probe_part(pid, seed)
+
+
+def _c13_probe_part(pid, seed):
     """len() after caught panics the world-history harness cannot build (harness/src/bin/lenprobe.rs)."""
     err = common.build_harness(["lenprobe"])
     if err:
